@@ -17,8 +17,8 @@ from .ref.wire import WireError, encode_packet, split_packets
 STEP_KINDS = ('direct_other', 'add_uid', 'add_uattr', 'add_subkey', 'rebind_subkey', 'recertify', 'certify_other', 'revoke_uid', 'revoke_subkey',
               'revoke_key', 'add_revoker', 'del_uid', 'protect', 'derive_pub', 'drop_pub', 'copy_key', 'export_import', 'tick',
               # opt-in kinds (weight 0 unless a property asks for them) stay at the end of the list
-              'revoke_subkey_by_other')
-OPT_IN_KINDS = ('revoke_subkey_by_other',)
+              'revoke_subkey_by_other', 'adopt_subkey')
+OPT_IN_KINDS = ('revoke_subkey_by_other', 'adopt_subkey')
 NAMES = ['Ann', 'Bea Long Name', 'Cy', 'Dée', 'Eve (x)', 'Flo', 'Jose\u0301 (decomposed)']
 
 
@@ -163,6 +163,9 @@ def gen_step(rng, sid, knames, weights=None):
         if rng.random() < 0.3:
             st['created_us'] = 1_400_000_000_000_000 + rng.choice([0, 86400 * 700, 86400 * 2000]) * 1_000_000
             st['created_tz'] = rng.choice([None, [2, 0], [-5, -30], [9, 0]])
+    if kind == 'adopt_subkey':
+        st['usage'] = rng.choice(['S', 'E', 'ET', 'A', 'SA'])
+        st['donor_form'] = rng.choice(['copy', 'reimported'])
     if kind == 'rebind_subkey':
         st['usage'] = rng.choice(['S', 'E', 'ET', 'A', 'SA'])
         st['sig_expires_s'] = rng.choice([None, None, None, 3600, 86400 * 30])
@@ -497,6 +500,76 @@ class KeyHistory(object):
             sig = k.bind(sk, usage=world.flags_from(usage), **kw)
         sk |= sig
         ms.sigs.append(self._rec(bytes(sig), 'bind', name, usage=usage))
+
+    def _op_adopt_subkey(self, st, name, k, mk):
+        # key transition: a subkey that one primary has bound is handed, as a copy or as re-imported, to add_subkey of a new
+        # primary.  The new primary is a throw-away key, the modelled key only lends the subkey; what is judged is that the new
+        # primary's own binding (with the flags asked for, and the cross-signature of a signing subkey) is made, verifies under
+        # the reference peer, shows on the public twin and survives a hop.
+        import copy as _copy
+        if not mk.subs or k.is_public or mk.passphrase is not None:
+            return 'nodonor'
+        ms = mk.subs[st['sub_index'] % len(mk.subs)]
+        sk = self._find_sub(k, ms)
+        if sk is None:
+            return 'sub-missing'
+        usage = st['usage']
+        if not world.can_sign(ms.alg):
+            usage = ''.join(c for c in usage if c in 'ET') or 'E'
+        else:
+            usage = ''.join(c for c in usage if c in 'CSA') or 'S'
+        if st.get('donor_form') == 'reimported':
+            donor = [x for x in self.pgpy.PGPKey.from_blob(bytes(k))[0].subkeys.values() if bytes.fromhex(str(x.fingerprint)) == ms.fp][0]
+        else:
+            donor = _copy.copy(sk)
+        new = world.new_key('ed25519', '%s.%s.heir' % (name, st['id']))
+        new.add_uid(self.pgpy.PGPUID.new('Heir of %s' % name), usage=world.flags_from('CS'))
+        new.add_subkey(donor, usage=world.flags_from(usage))
+        self.ctx.probe('subkey_adopted_by_new_primary')
+        self.ctx.checked()
+        nk = bytes.fromhex(str(new.fingerprint))[-8:]
+
+        def judge(what, blob):
+            try:
+                tk = bridge.ref_tkey(blob)
+            except WireError as e:
+                raise Violation('C15:adopted-export-unreadable', '%s: the reference peer cannot parse it: %s' % (what, e))
+            comp = [c for c in tk.subkeys if c.key.fingerprint == ms.fp]
+            if not comp:
+                raise Violation('C15:adopted-subkey-missing', '%s: the adopted subkey is not a component of its new primary' % what)
+            own = []
+            for b in comp[0].sigs:
+                sg = rsigs.parse_sig(b)
+                iss = sg.issuer or (sg.issuer_fpr[-8:] if sg.issuer_fpr else None)
+                if sg.type == 0x18 and iss == nk:
+                    own.append(sg)
+            if not own:
+                raise Violation('C15:adopted-subkey-unbound', '%s: a subkey another primary had bound was added with add_subkey but carries no '
+                                'binding signature of its new primary' % what)
+            sg = own[-1]
+            if not rsigs.verify(sg, tk.pub, rtkey.subject_for(tk, comp[0], sg)):
+                raise Violation('C15:adopted-binding-invalid', '%s: the new primary\'s binding of the adopted subkey does not verify' % what)
+            fl = sg.sub(rsigs.SP_KEYFLAGS, True)
+            want = 0
+            for c in usage:
+                want |= {'C': 1, 'S': 2, 'E': 4, 'T': 8, 'A': 0x20}[c]
+            got = fl[0].body[0] if fl and fl[0].body else None
+            if got != want:
+                raise Violation('C15:adopted-binding-flags', '%s: the new binding says key flags %r, add_subkey was asked for 0x%02x' % (what, got, want))
+            if 'S' in usage:
+                emb = sg.sub(rsigs.SP_EMBEDDED)
+                if not emb:
+                    raise Violation('C15:adopted-crosssig-missing', '%s: the new binding of a signing subkey has no embedded primary-key binding' % what)
+                es = rsigs.parse_sig(emb[0].body)
+                if not (es.type == 0x19 and rsigs.verify(es, comp[0].key, rtkey.subject_for(tk, comp[0], sg))):
+                    raise Violation('C15:adopted-crosssig-invalid', '%s: the embedded primary-key binding does not verify' % what)
+
+        judge('new primary after add_subkey of a %s subkey' % st.get('donor_form', 'copy'), bytes(new))
+        judge('public twin of the new primary', bytes(new.pubkey))
+        judge('new primary after a hop', bytes(self.pgpy.PGPKey.from_blob(bytes(new))[0]))
+        # the lender is untouched
+        if [bytes(s) for s in sk.__sig__] != [bytes(s) for s in self._find_sub(k, ms).__sig__]:
+            raise Violation('C15:adoption-changed-lender', 'lending a subkey changed the lender\'s own subkey')
 
     def _op_revoke_subkey_by_other(self, st, name, k, mk):
         # a subkey revocation issued by another key of the universe (a designated revoker's, say): it belongs to the subkey it is
